@@ -829,6 +829,125 @@ def r9(k: Kit) -> None:
     rep.floor('C03.R9', 'trust table rows', len(rep.obligations) - before, 6)
 
 
+def r12(k: Kit) -> None:
+    """_choose_alg returns a common algorithm or fails."""
+    rep = k.rep
+    rep.rule('C03.R12', 'SSHConnection._choose_alg: every value it returns '
+             'is the loop variable of the walk over the client\'s list, '
+             'returned on the true edge of "alg in server_algs"; every other '
+             'way out raises KeyExchangeFailed - no default is substituted '
+             'when the lists share nothing (not for compression either)')
+    fi = k.func('connection.SSHConnection._choose_alg')
+    g = k.cfg(fi)
+    rets = [n for n in g.nodes if n.kind == 'return']
+    rep.floor('C03.R12', 'returns of _choose_alg', len(rets), 1)
+    loops = {}
+    for n in g.nodes:
+        if n.kind == 'loop' and isinstance(n.ast, ast.For) and \
+                isinstance(n.ast.target, ast.Name):
+            loops[n.ast.target.id] = dotted(n.ast.iter)
+    for r in rets:
+        v = r.ast.value
+        nm = v.id if isinstance(v, ast.Name) else None
+
+        def common(x: Node, nm=nm) -> Optional[bool]:
+            a = x.ast
+            if x.kind == 'atom' and isinstance(a, ast.Compare) and \
+                    len(a.ops) == 1 and isinstance(a.ops[0], ast.In) and \
+                    isinstance(a.left, ast.Name) and a.left.id == nm:
+                return True
+            if x.kind == 'atom' and isinstance(a, ast.Compare) and \
+                    len(a.ops) == 1 and isinstance(a.ops[0], ast.NotIn) and \
+                    isinstance(a.left, ast.Name) and a.left.id == nm:
+                return False
+            return None
+        w = g.guarded_by(r.id, common) if nm in loops else [r.id]
+        rep.check(w is None, 'C03.R12',
+                  key(fi, f'return {norm(v) if v is not None else ""}'),
+                  'an entry of one list, tested to be in the other',
+                  f'_choose_alg can return `{norm(v) if v is not None else None}` '
+                  'without it being on both lists: with disjoint '
+                  'compression lists the exchange completes with an '
+                  'algorithm one side never offered instead of failing '
+                  'with KeyExchangeFailed', k.loc(fi, r),
+                  g.describe_path(w) if w else None)
+    w = g.path(g.entry, g.exit, blocked_nodes=[r.id for r in rets],
+               follow_exc=False)
+    rep.check(w is None, 'C03.R12', key(fi, 'no match is an error'),
+              'falling out of the loop raises',
+              '_choose_alg can end without a result', fi.loc(fi.node))
+
+
+def r13(k: Kit) -> None:
+    """Only the caller can switch host key checking off."""
+    rep = k.rep
+    rep.rule('C03.R13', 'SSHClientConnection: self._known_hosts is None '
+             '(= "do not validate the host key") only when the caller '
+             'passed known_hosts=None - the connection never stores None '
+             'itself; a missing or unreadable default ~/.ssh/known_hosts '
+             'becomes an empty list of trusted keys, which rejects every '
+             'host key')
+    n = 0
+    for fi in k.idx.iter_funcs(['connection']):
+        if fi.cls is None or not fi.qual.startswith(
+                'connection.SSHClientConnection.'):
+            continue
+        for nd, v in k.stores_to(fi, 'self._known_hosts'):
+            n += 1
+            bad = v is None or (isinstance(v, ast.Constant) and
+                                v.value is None) or (
+                isinstance(v, ast.IfExp) and any(
+                    isinstance(b, ast.Constant) and b.value is None
+                    for b in (v.body, v.orelse)))
+            rep.check(not bad, 'C03.R13',
+                      key(fi, f'known_hosts = {norm(v)[:40] if v is not None else "?"}'),
+                      'not the "checking off" sentinel',
+                      'the connection sets _known_hosts to None on its own: '
+                      'a client that relies on the default known_hosts file '
+                      'and has none (fresh account, container) accepts any '
+                      'host key - a substituted key no longer aborts the '
+                      'exchange', k.loc(fi, nd))
+    rep.floor('C03.R13', 'stores to _known_hosts', n, 3)
+
+
+def r14(k: Kit) -> None:
+    """The client knows which host key algorithm was negotiated."""
+    rep = k.rep
+    rep.rule('C03.R14', 'client side of the host key algorithm: '
+             '_process_kexinit uses the server\'s host key algorithm list '
+             'on the client path too (to compute the negotiated algorithm, '
+             'the first on the client\'s list the server supports) - a '
+             'necessary condition for checking that the key and signature '
+             'of the KEX reply are of the negotiated algorithm; without it '
+             'a server can answer a client that offered only rsa-sha2-512 '
+             'with an ssh-rsa (SHA-1) signature, or with a key type the '
+             'client did not offer')
+    fi = k.func('connection.SSHConnection._process_kexinit')
+    g = k.cfg(fi)
+    uses = []
+    for n in g.nodes:
+        for c in g.calls_at(n):
+            if any(isinstance(a, ast.Name) and a.id == 'peer_host_key_algs'
+                   for a in c.args) and not (
+                       (dotted(c.func) or '').startswith('self.logger.')):
+                uses.append(n)
+    rep.floor('C03.R14', 'uses of the peer host key algorithm list',
+              len(uses), 1)
+    srv = lambda x: True if x.kind == 'atom' and is_call(
+        x.ast, 'is_server', 'self') else None
+    client_use = [n for n in uses if g.guarded_by(n.id, srv) is not None]
+    rep.check(bool(client_use), 'C03.R14',
+              key(fi, 'client negotiates the host key algorithm'),
+              'peer_host_key_algs is used on the client path',
+              'the client never looks at the server\'s host key algorithm '
+              'list: the negotiated host key algorithm is not computed, so '
+              'the reply\'s key type and signature algorithm cannot be '
+              'held to it (client offers server_host_key_algs='
+              '[rsa-sha2-512], server signs H with ssh-rsa / presents a '
+              'trusted ssh-ed25519 key: handshake completes)',
+              fi.loc(fi.node))
+
+
 def run(idx, rep, tier):
     k = Kit(idx, rep)
     rep.assumptions += NOT_DECIDED
@@ -846,6 +965,9 @@ def run(idx, rep, tier):
     r7(k)
     r8(k)
     r9(k)
+    r12(k)
+    r13(k)
+    r14(k)
     # C03.R10: shared rule
     from .c17 import port_fallback as _pf, r2 as _c17r2
     rep.rule('C03.R10', 'the host key of the cleartext reply is looked up the way known_hosts says (= C17.R6 port fallback and C17.R2 marker routing): port-less entries are consulted only when [host]:port has no trusted entry of any kind, so a key listed for the plain host cannot stand in for a port whose own entry names a CA')
